@@ -258,13 +258,19 @@ void Exec::op_query(const Json& o,const std::string& op){
   if(op=="rotate_m"){
     long dm=o["d"].as_int(d); if(dm<1||dm>7){ skip("matrix size"); return; }
     { std::vector<double> av=mvals(c,a); for(size_t i=0;i<av.size();i++) if(!(std::fabs(av[i])<1e60) || (av[i]!=0 && std::fabs(av[i])<1e-100)){ skip("non-finite, huge or denormal-scale values"); return; } }
-    bool bad=((unsigned)dm!=d);
-    gsl_matrix_complex* U=make_unitary((unsigned)dm,(uint64_t)o["vs"].as_int(1));
+    long dc=o.has("c")?o["c"].as_int(dm):dm; if(dc<1||dc>7){ skip("matrix size"); return; }
+    bool bad=((unsigned)dm!=d||(unsigned)dc!=d);
+    gsl_matrix_complex* U=0;
+    if(dc==dm) U=make_unitary((unsigned)dm,(uint64_t)o["vs"].as_int(1));
+    else{ // a non-square matrix: only one of its extents may agree with the vector
+      U=gsl_matrix_complex_alloc((size_t)dm,(size_t)dc); verif::Rng rr((uint64_t)o["vs"].as_int(1));
+      for(long i=0;i<dm;i++) for(long j=0;j<dc;j++) gsl_matrix_complex_set(U,(size_t)i,(size_t)j,gsl_complex_rect(rr.uniform(-1,1),rr.uniform(-1,1)));
+    }
     begin(op,bad?"C14":"C15");
     int rc=lib_call(c,[&]{ SU_vector r=c.slot[a].v().Rotate(U); (void)r; });
     bool fired=end();
     gsl_matrix_complex_free(U);
-    settle(rc,fired,bad,"C15","C14","rotate_m:"+kd(a)+":m"+std::to_string(dm),!bad);
+    settle(rc,fired,bad,"C15","C14","rotate_m:"+kd(a)+":m"+std::to_string(dm)+(dc!=dm?"x"+std::to_string(dc):""),!bad);
     shp(op); check_all(c,bad?"C14":"C15",sig); return;
   }
   // the GSL-backed matrix functions iterate (eigen solver, Pade order selection): non-finite or overflowing input is outside their
